@@ -22,7 +22,10 @@ use futures::FutureExt;
 use ractor::concurrency::OneshotReceiver;
 use ractor::factory::queues::{DefaultQueue, PriorityManager, PriorityQueue, Queue, StandardPriority};
 use ractor::factory::ratelim::{LeakyBucketRateLimiter, RateLimitedRouter};
-use ractor::factory::routing::{CustomHashFunction, CustomRouting, QueuerRouting, RoundRobinRouting, Router};
+use ractor::factory::routing::{
+    CustomHashFunction, CustomRouting, KeyPersistentRouting, QueuerRouting, RoundRobinRouting, Router,
+    StickyQueuerRouting,
+};
 use ractor::factory::{
     DiscardHandler, DiscardMode, DiscardReason, DiscardSettings, Factory, FactoryArguments,
     FactoryLifecycleHooks, FactoryMessage, Job, JobOptions, WorkerBuilder, WorkerId, WorkerMessage,
@@ -33,15 +36,15 @@ use rv_harness::*;
 use tokio::sync::Semaphore;
 
 type Key = u64;
+/// The job id travels in the message; the key is what the routers / queues look at.
 #[derive(Debug)]
-struct Msg;
+struct Msg {
+    id: u64,
+}
 impl ractor::Message for Msg {}
 
-fn job_id(k: Key) -> u64 {
-    k >> 24
-}
-fn pack(id: u64, rk: u64, prio: u64, disc: u64) -> Key {
-    (id << 24) | ((rk & 0xff) << 16) | ((prio & 0xff) << 8) | (disc & 1)
+fn pack(rk: u64, prio: u64, disc: u64) -> Key {
+    ((rk & 0xff) << 16) | ((prio & 0xff) << 8) | (disc & 1)
 }
 
 struct Slot {
@@ -130,7 +133,7 @@ impl Actor for HWorker {
                 state.factory.cast(FactoryMessage::WorkerPong(state.wid, time.elapsed()))?;
             }
             WorkerMessage::Dispatch(job) => {
-                let id = job_id(job.key);
+                let id = job.msg.id;
                 {
                     let mut g = self.sh.lock().unwrap();
                     g.events.push(format!("EStart {} {} {}", id, state.wid, self.inc));
@@ -180,7 +183,7 @@ impl DiscardHandler<Key, Msg> for Discards {
             DiscardReason::Shutdown => "Shutdown",
             DiscardReason::RateLimited => "RateLimited",
         };
-        log(&self.0, format!("EDiscard {} {}", job_id(job.key), r));
+        log(&self.0, format!("EDiscard {} {}", job.msg.id, r));
     }
 }
 
@@ -263,9 +266,9 @@ where
         match op[0].as_str() {
             "d" => {
                 let id: u64 = op[1].parse().unwrap();
-                let key = pack(id, op[2].parse().unwrap(), op[3].parse().unwrap(), op[4].parse().unwrap());
+                let key = pack(op[2].parse().unwrap(), op[3].parse().unwrap(), op[4].parse().unwrap());
                 let (tx, rx) = ractor::concurrency::oneshot();
-                let job = Job { key, msg: Msg, options: JobOptions::default(), accepted: Some(tx.into()) };
+                let job = Job { key, msg: Msg { id }, options: JobOptions::default(), accepted: Some(tx.into()) };
                 match factory.cast(FactoryMessage::Dispatch(job)) {
                     Ok(()) => pending.push((id, rx)),
                     Err(_) => log(&sh, format!("EDropped {id}")),
@@ -460,6 +463,8 @@ fn run_case(rest: &str) -> String {
             "queuer" => with_rate(QueuerRouting::<Key, Msg>::default(), &head[3], &head[1], scn).await,
             "rr" => with_rate(RoundRobinRouting::<Key, Msg>::default(), &head[3], &head[1], scn).await,
             "custom" => with_rate(CustomRouting::<Key, Msg, RkHasher>::new(RkHasher), &head[3], &head[1], scn).await,
+            "kp" => with_rate(KeyPersistentRouting::<Key, Msg>::default(), &head[3], &head[1], scn).await,
+            "sticky" => with_rate(StickyQueuerRouting::<Key, Msg>::default(), &head[3], &head[1], scn).await,
             other => panic!("unknown router {other}"),
         }
     })
@@ -470,6 +475,12 @@ fn main() {
         let (kind, rest) = line.split_once(' ').unwrap_or((&line, ""));
         match kind {
             "cap" => println!("{}", run_case(rest)),
+            // hash <rk> <prio> <disc>: hash_with_max(key, n) for n = 1..=8 (KeyPersistentRouting's hash is scenario data)
+            "hash" => {
+                let w: Vec<u64> = rest.split_whitespace().map(|x| x.parse().unwrap()).collect();
+                let key = pack(w[0], w[1], w[2]);
+                println!("{}", coq_nums((1..=8usize).map(|n| ractor::factory::hash::hash_with_max(&key, n) as u64)));
+            }
             other => panic!("unknown case kind {other}"),
         }
     }
